@@ -8,7 +8,8 @@ The kernel leaves some outcomes open (after a reset the lines received before ma
 first `send` after the peer's FIN succeeds or not), so the model gives for every state and operation the *set* of
 outcomes the implementation may show (`allowed`); `step` follows an observed outcome if it is in that set.
 
-  readline   `AsynConn.readline()`: a complete line from `_rxbuffer`/`recv`, `None` after `timeout` without data,
+  readline   `AsynConn.readline()`: a complete line from `_rxbuffer`/`recv`, `None` after `timeout` without data
+             (also when the beginning of a line is waiting in `_rxbuffer`: it stays there, `allowed` does not look at `part`),
              `ConnectionClosed` when `recv` returns `b''` or raises `ConnectionResetError`
              (`AsynTcp.recv`); after `disconnect()` `self.connection` is `None` → `AttributeError`
   send       `self.connection.sendall(data)`: `BrokenPipeError`/`ConnectionResetError` on a dead or locally
@@ -38,7 +39,9 @@ inductive Out where
   deriving DecidableEq, Repr
 
 inductive Ev where
-  | peerSend                -- the peer sends one more complete line
+  | peerSend                -- the peer sends one more complete line (or the rest of the line it has begun, with the terminator)
+  | peerPart                -- bytes of the next line arrive without its terminator (the line comes in several segments);
+                            -- whatever pause follows, they belong to that line
   | peerFin                 -- the peer closes orderly
   | peerRst                 -- the peer resets the connection
   | call (o : Op) (r : Out)
@@ -48,6 +51,7 @@ structure St where
   peer : PeerSt := .up
   sent : Nat := 0           -- lines the peer has sent
   read : Nat := 0           -- lines handed to the client so far
+  part : Bool := false      -- the beginning of line number `sent` has arrived, its terminator has not (`_rxbuffer` keeps it)
   shut : Bool := false      -- `shutdown()` was called
   gone : Bool := false      -- `disconnect()` was called (`self.connection is None`)
   finSends : Nat := 0       -- sends after the peer's FIN (the first one still succeeds)
@@ -84,7 +88,8 @@ def apply (s : St) : Op → Out → St
 
 /-- the peer acts only while its side is open -/
 def step (s : St) : Ev → Option St
-  | .peerSend => if s.peer = .up then some { s with sent := s.sent + 1 } else none
+  | .peerSend => if s.peer = .up then some { s with sent := s.sent + 1, part := false } else none
+  | .peerPart => if s.peer = .up then some { s with part := true } else none
   | .peerFin => if s.peer = .up then some { s with peer := .fin } else none
   | .peerRst => if s.peer = .up then some { s with peer := .rst } else none
   | .call o r => if (allowed s o).contains r then some (apply s o r) else none
